@@ -25,3 +25,12 @@ func verifPoint(point string, arg string, n int) {
 		h.fn(point, arg, n)
 	}
 }
+
+// verifTag identifies the cache at hook points which have no path at hand:
+// its first Spec directory.
+func (c *Cache) verifTag() string {
+	if len(c.specDirs) == 0 {
+		return ""
+	}
+	return c.specDirs[0]
+}
